@@ -29,8 +29,6 @@ from harness.common import SEED, Check, MachineryError, cap, parse_printed_json,
 LETTERS = "XYZ"
 TOL = 1e-9  # DESIGN section 6: "to rounding", relative to the conditioning scale of the expression
 NSEG = 8
-SUB = 48  # strain / excursion sub-intervals per segment
-NODE = 24  # ODE-residual samples per segment
 
 
 # --------------------------------------------------------------------------- term helpers
@@ -279,8 +277,36 @@ def concretise(rec, seed):
                 max_strain=s["lim_e1"] / 10.0, steps=(s["steps"] or None), ih=ih, iv=iv)
 
 
+class NoReturn(Exception):
+    """get_pathline used up the evaluation budget without returning (it would not return in practice)."""
+
+
+EVAL_BUDGET = 50_000  # velocity evaluations per get_pathline call; calls that return need < 1e3 (maximum kept in the evidence)
+
+
+def budgeted(u, counter):
+    def f(t, x):
+        counter[0] += 1
+        if counter[0] > EVAL_BUDGET:
+            raise NoReturn(f"more than {EVAL_BUDGET} velocity evaluations")
+        return u(t, x)
+
+    return f
+
+
 def run_pathline(job):
-    """Call the real get_pathline and project the result to the events PathTrace.tla reads."""
+    """Call the real get_pathline and project the result to the events PathTrace.tla reads.
+
+    Measures (all on the returned interpolant, no formula of the flows is used):
+    * knots = the interpolant's own step boundaries (scipy OdeSolution.ts; a uniform grid if absent);
+    * ODE residual at the middle of every step, central difference over half the step (the stencil never
+      straddles a step boundary), compared with the velocity callable there; only on the interior 96 % of
+      the time span, only where the whole stencil is inside the box, and not in the step in which the path
+      leaves the box (the integrated field is discontinuous there: zero outside the box);
+    * excursion outside the box at the knots, 4 points per step and the returned timestamps;
+    * tensorial strain = sum of strain_increment(dt, gradient callable) over 4 sub-intervals per step, over
+      the part of the path that is inside the box.
+    """
     tid, rec, seed = job
     quiet_pydrex()
     from pydrex import pathlines, utils
@@ -293,68 +319,74 @@ def run_pathline(job):
     interior = bool(lo[ih] < xf[ih] < hi[ih] and lo[iv] < xf[iv] < hi[iv])
     ev = [dict(tid=tid, ev="Call", scen=rec["scen"], interior=interior, out="returned")]
     info = dict(args=a)
+    nev = [0]
     try:
-        ts, pos = pathlines.get_pathline(xf, u, L, lo, hi, a["max_strain"], regular_steps=a["steps"])
+        ts, pos = pathlines.get_pathline(xf, budgeted(u, nev), L, lo, hi, a["max_strain"], regular_steps=a["steps"])
+    except NoReturn as ex:
+        ev[0]["out"] = "NoReturn"
+        info["exc"] = repr(ex)
+        return ev, info
     except Exception as ex:  # noqa: BLE001
         ev[0]["out"] = exc_class(ex)
         info["exc"] = repr(ex)[:200]
         return ev, info
     ts = np.asarray(ts, dtype=float)
     ext = float((hi - lo).max())
+
+    def excursion(x):
+        return float(np.maximum(lo - x, x - hi).max())
+
     x0 = np.asarray(pos(0.0), dtype=float)
     end_dev = float(np.abs(x0 - xf).max()) / ext
     ev.append(dict(tid=tid, ev="Stamps", nT=int(len(ts)), incr=bool(np.all(np.diff(ts) > 0)), tLast0=bool(len(ts) > 0 and ts[-1] == 0.0),
                    endDev_e12=cap(math.ceil(end_dev * 1e12) if math.isfinite(end_dev) else math.inf)))
     t0 = float(ts[0]) if len(ts) else 0.0
     T = -t0
-    info.update(T=T, nT=int(len(ts)), endDev=end_dev)
-    Xs = np.array([pos(t) for t in ts]) if len(ts) else np.zeros((0, 3))
-    exc_s = np.maximum(lo - Xs, Xs - hi).max(axis=1) / ext if len(ts) else np.zeros(0)
-    a_lo, a_hi = t0 + 0.02 * T, -0.02 * T
-    h = 1e-3 * T
-    segs = []
+    info.update(T=T, nT=int(len(ts)), endDev=end_dev, nfev=nev[0])
+    segs = [[0.0, 0.0, 0.0] for _ in range(NSEG)]  # excursion, ODE residual, strain
+
+    def seg_of(t):
+        return min(NSEG - 1, max(0, int((t - t0) / T * NSEG))) if T > 0 else 0
+
     umax = 0.0
-    strain_total = 0.0
-    # the integrated field is discontinuous at the box boundary (zero outside): the solver step in which the
-    # path leaves the box has no ODE to satisfy, so the residual is judged up to the start of that step
-    sol_ts = np.sort(np.asarray(getattr(pos, "ts", [t0, 0.0]), dtype=float))
-    t_exit_step = float(sol_ts[1]) if len(sol_ts) > 2 else t0
-    info["ode_rule_A"] = 0.0
-    for k in range(NSEG):
-        ta, tb = t0 + T * k / NSEG, t0 + T * (k + 1) / NSEG
-        out, dres, dstrain, dresA = 0.0, 0.0, 0.0, 0.0
-        if T > 0:
-            tt = np.linspace(ta, tb, SUB + 1)
-            for i in range(SUB):
-                xm = np.asarray(pos(0.5 * (tt[i] + tt[i + 1])), dtype=float)
-                exc_m = float(np.maximum(lo - xm, xm - hi).max())
-                out = max(out, exc_m / ext)
-                if exc_m <= 0:  # strain accumulates along the part of the path that is inside the box
-                    dstrain += float(utils.strain_increment(float(tt[i + 1] - tt[i]), np.asarray(L(np.nan, xm), dtype=float)))
-            inseg = (ts >= ta) & (ts <= tb)
-            if inseg.any():
-                out = max(out, float(exc_s[inseg].max()))
-            for t in np.linspace(max(ta, a_lo), min(tb, a_hi), NODE):
-                st = [np.asarray(pos(t + dh), dtype=float) for dh in (-h, 0.0, h)]
-                if any(np.any(x < lo) or np.any(x > hi) for x in st):
-                    continue  # outside the box the integrated field is zero by construction; judged by inside-box
-                d = (st[2] - st[0]) / (2 * h)
-                uu = np.asarray(u(np.nan, st[1]), dtype=float)
-                umax = max(umax, float(np.abs(uu).max()))
-                r = float(np.abs(d - uu).max())
-                dresA = max(dresA, r)
-                if t - h >= t_exit_step:
-                    dres = max(dres, r)
-        strain_total += dstrain
-        info["ode_rule_A"] = max(info["ode_rule_A"], dresA)
-        segs.append([out, dres, dstrain])
-    info["ode_rule_A"] = info["ode_rule_A"] / umax if umax > 0 else 0.0
+    if T > 0:
+        knots = np.unique(np.asarray(getattr(pos, "ts", np.linspace(t0, 0.0, 97)), dtype=float))
+        knots = knots[(knots >= t0) & (knots <= 0.0)]
+        if len(knots) < 2 or knots[0] > t0 or knots[-1] < 0.0:
+            knots = np.unique(np.concatenate([[t0], knots, [0.0]]))
+        info["steps"] = int(len(knots) - 1)
+        m = 4 if len(knots) <= 600 else 1
+        a_lo, a_hi = t0 + 0.02 * T, -0.02 * T
+        for t in list(ts) + list(knots):
+            k = seg_of(t)
+            segs[k][0] = max(segs[k][0], excursion(np.asarray(pos(t), dtype=float)) / ext)
+        for n in range(len(knots) - 1):
+            ka, kb = float(knots[n]), float(knots[n + 1])
+            w = (kb - ka) / m
+            for j in range(m):
+                tm = ka + (j + 0.5) * w
+                xm = np.asarray(pos(tm), dtype=float)
+                e = excursion(xm)
+                k = seg_of(tm)
+                segs[k][0] = max(segs[k][0], e / ext)
+                if e <= 0:
+                    segs[k][2] += float(utils.strain_increment(float(w), np.asarray(L(np.nan, xm), dtype=float)))
+            tm, h = 0.5 * (ka + kb), 0.25 * (kb - ka)
+            if n == 0 or tm - h < a_lo or tm + h > a_hi:
+                continue
+            st = [np.asarray(pos(tm + dh), dtype=float) for dh in (-h, 0.0, h)]
+            if any(excursion(x) > 0 for x in st):
+                continue
+            uu = np.asarray(u(np.nan, st[1]), dtype=float)
+            umax = max(umax, float(np.abs(uu).max()))
+            k = seg_of(tm)
+            segs[k][1] = max(segs[k][1], float(np.abs((st[2] - st[0]) / (2 * h) - uu).max()))
     for k, (out, dres, dstrain) in enumerate(segs, start=1):
         ode = dres / umax if umax > 0 else (0.0 if dres == 0 else math.inf)
         ev.append(dict(tid=tid, ev="Seg", k=k, ode_e6=cap(ode * 1e6), out_e6=cap(max(out, 0.0) * 1e6), dStrain_e6=cap(dstrain * 1e6, 200_000_000)))
     ev.append(dict(tid=tid, ev="End"))
-    info.update(ode=max((s[1] for s in segs), default=0.0) / umax if umax > 0 else 0.0, outside=max(max(s[0] for s in segs), 0.0),
-                ratio=strain_total / a["max_strain"])
+    info.update(ode=max(s[1] for s in segs) / umax if umax > 0 else 0.0, outside=max(max(s[0] for s in segs), 0.0),
+                ratio=sum(s[2] for s in segs) / a["max_strain"])
     return ev, info
 
 
